@@ -398,3 +398,121 @@ def inline_properties(expr, fi, tenv, depth=4, keep=()):
             return T(self.d - 1).visit(sub)
 
     return T(depth).visit(copy.deepcopy(expr))
+
+
+def poly_in(e, var, table=None, max_deg=40):
+    """Exact polynomial {power: Fraction} of expression ``e`` in the single name ``var`` (constants, + - *, division by
+    a constant, integer powers); None when ``e`` is anything else."""
+    table = table or {}
+
+    def mul(a, b):
+        out = {}
+        for i, x in a.items():
+            for j, y in b.items():
+                if i + j > max_deg:
+                    return None
+                out[i + j] = out.get(i + j, 0) + x * y
+        return out
+
+    def go(n):
+        if isinstance(n, ast.Name) and n.id == var:
+            return {1: Fraction(1)}
+        c = const_value(n, table)
+        if c is not None:
+            return {0: c}
+        if isinstance(n, ast.UnaryOp) and isinstance(n.op, (ast.USub, ast.UAdd)):
+            a = go(n.operand)
+            return None if a is None else ({k: -v for k, v in a.items()} if isinstance(n.op, ast.USub) else a)
+        if isinstance(n, ast.BinOp):
+            a = go(n.left)
+            b = go(n.right)
+            if a is None or b is None:
+                return None
+            if isinstance(n.op, (ast.Add, ast.Sub)):
+                out = dict(a)
+                for k, v in b.items():
+                    out[k] = out.get(k, 0) + (v if isinstance(n.op, ast.Add) else -v)
+                return out
+            if isinstance(n.op, ast.Mult):
+                return mul(a, b)
+            if isinstance(n.op, ast.Div):
+                if set(b) - {0} or not b.get(0):
+                    return None
+                return {k: v / b[0] for k, v in a.items()}
+            if isinstance(n.op, ast.Pow):
+                if set(b) - {0} or b.get(0, 0).denominator != 1 or not (0 <= b.get(0, 0) <= max_deg):
+                    return None
+                out = {0: Fraction(1)}
+                for _ in range(int(b[0])):
+                    out = mul(out, a)
+                    if out is None:
+                        return None
+                return out
+        return None
+
+    res = go(e)
+    if res is None:
+        return None
+    return {k: v for k, v in res.items() if v != 0}
+
+
+class NotEvaluable(Exception):
+    pass
+
+
+def eval_small(e, env):
+    """Evaluate a closed arithmetic / comparison expression over small exact values (ints, Fractions, bools) with
+    ``env`` for names.  Supports + - * // % / **, remainder / mod / floor / abs / int, comparisons, and / or / not.
+    Used to tabulate finite-domain predicates (a leap-year test over the supported years); raises NotEvaluable."""
+    import math
+    import operator as op
+
+    B = {ast.Add: op.add, ast.Sub: op.sub, ast.Mult: op.mul, ast.FloorDiv: op.floordiv, ast.Mod: op.mod, ast.Pow: op.pow}
+    C = {ast.Lt: op.lt, ast.LtE: op.le, ast.Gt: op.gt, ast.GtE: op.ge, ast.Eq: op.eq, ast.NotEq: op.ne}
+    if isinstance(e, ast.Constant) and isinstance(e.value, (int, float, bool)):
+        return Fraction(e.value) if isinstance(e.value, float) else e.value
+    if isinstance(e, ast.Name):
+        if e.id in env:
+            return env[e.id]
+        raise NotEvaluable(e.id)
+    if isinstance(e, ast.UnaryOp):
+        v = eval_small(e.operand, env)
+        if isinstance(e.op, ast.Not):
+            return not v
+        if isinstance(e.op, ast.USub):
+            return -v
+        if isinstance(e.op, ast.UAdd):
+            return v
+    if isinstance(e, ast.BinOp):
+        a, b = eval_small(e.left, env), eval_small(e.right, env)
+        if type(e.op) in B:
+            return B[type(e.op)](a, b)
+        if isinstance(e.op, ast.Div):
+            return Fraction(a) / Fraction(b)
+        if isinstance(e.op, (ast.BitAnd, ast.BitOr)) and isinstance(a, bool) and isinstance(b, bool):
+            return (a and b) if isinstance(e.op, ast.BitAnd) else (a or b)
+    if isinstance(e, ast.BoolOp):
+        vals = [eval_small(v, env) for v in e.values]
+        return all(vals) if isinstance(e.op, ast.And) else any(vals)
+    if isinstance(e, ast.Compare):
+        left = eval_small(e.left, env)
+        for o, c in zip(e.ops, e.comparators):
+            right = eval_small(c, env)
+            if type(o) not in C or not C[type(o)](left, right):
+                if type(o) not in C:
+                    raise NotEvaluable(ast.dump(o))
+                return False
+            left = right
+        return True
+    if isinstance(e, ast.Call):
+        nm = e.func.attr if isinstance(e.func, ast.Attribute) else getattr(e.func, "id", None)
+        args = [eval_small(a, env) for a in e.args]
+        if nm in ("remainder", "mod", "fmod") and len(args) == 2:
+            return args[0] % args[1]
+        if nm == "floor" and len(args) == 1:
+            return math.floor(args[0])
+        if nm in ("abs", "fabs") and len(args) == 1:
+            return abs(args[0])
+        if nm == "int" and len(args) == 1:
+            return int(args[0])
+    raise NotEvaluable(ast.dump(e)[:60])
